@@ -169,6 +169,29 @@ func exec(planJSON []byte, run *core.Run) {
 		}
 	}
 
+	// the keys reach the parties in marshalled form, in buffers their owners reuse as soon as
+	// the key is loaded (sender: pkR; receiver: skR and, in auth modes, pkS; auth sender: skS)
+	if p.IkmR%4 != 0 {
+		load := func(b []byte, priv bool) (any, error) {
+			buf := append([]byte{}, b...)
+			defer core.Recycle(buf)
+			if priv {
+				return scheme.UnmarshalBinaryPrivateKey(buf)
+			}
+			return scheme.UnmarshalBinaryPublicKey(buf)
+		}
+		k1, e1 := load(pkRb, false)
+		k2, e2 := load(skRb, true)
+		k3, e3 := load(pkSb, false)
+		k4, e4 := load(skSb, true)
+		if e1 != nil || e2 != nil || e3 != nil || e4 != nil {
+			run.Violate("hpke.KEM.UnmarshalBinary*Key", "rejects-own-encoding", "%v %v %v %v", e1, e2, e3, e4)
+			return
+		}
+		pkR, skR, pkS, skS = k1.(kem.PublicKey), k2.(kem.PrivateKey), k3.(kem.PublicKey), k4.(kem.PrivateKey)
+		run.Fault("transport:key-buffers-reused-after-load")
+	}
+
 	info := core.H(p.Info)
 	if p.InfoNil {
 		info = nil
